@@ -330,10 +330,15 @@ func (a *List) M__iadd__(other Object) (Object, error) {
 func (l *List) M__mul__(other Object) (Object, error) {
 	if b, ok := convertToInt(other); ok {
 		m := len(l.Items)
-		n := int(b) * m
-		if n < 0 {
-			n = 0
+		if b <= 0 || m == 0 {
+			// nothing to repeat (and int(b) * m may not overflow)
+			return NewList(), nil
 		}
+		const maxInt = int(^uint(0) >> 1)
+		if int(b) > maxInt/m {
+			return nil, ExceptionNewf(MemoryError, "repeated list is too long")
+		}
+		n := int(b) * m
 		newList := NewListSized(n)
 		for i := 0; i < n; i += m {
 			copy(newList.Items[i:i+m], l.Items)
